@@ -27,10 +27,18 @@ def run(ctx):
                        'unless the local instance pointer was re-tested; unregister clears that pointer through term iff set', floor=3)
     ctx.rule('R-C20d', 'INIT-COMPLETE for iv_inotify / iv_inotify_watch', floor=4)
     ctx.rule('R-C20g', 'NULL-CONTRADICTION in iv_inotify.c', floor=1)
+    ctx.rule('R-C20.cmp', 'watch comparator orders by wd; the lookup descends left/right/returns in agreement with it', floor=6)
+    ctx.section(cmp_rules)
     ctx.section(dispatch)
     ctx.section(stale)
     ctx.section(lambda c: generic.init_complete(c, 'R-C20d', kinds={'iv_inotify', 'iv_inotify_watch'}))
     ctx.section(lambda c: null_rule(c, 'R-C20g', ('iv_inotify.c',)))
+
+
+def cmp_rules(ctx):
+    from .. import cmprules
+    cmprules.key_comparator(ctx, 'R-C20.cmp', '__iv_inotify_watch_compare', 'wd')
+    cmprules.descent(ctx, 'R-C20.cmp', '__find_watch', 'wd', on_equal='return')
 
 
 def dispatch(ctx):
